@@ -143,6 +143,9 @@ func runC20(r *core.Run) {
 		r.Mark("gomaxprocs", fmt.Sprint(p))
 	}
 	runtime.GOMAXPROCS(old)
+	if !r.Quick() {
+		liveOtherToolchain(r, 5000, 100)
+	}
 	// handler
 	hook := func(raw []byte, s *stack.Snapshot, err error) {
 		c := &capture{headers: len(rawHeaders(raw)), err: err}
